@@ -15,4 +15,5 @@ import seedverif as sv
 sv.build(False)
 sv.build(True)
 PY
+python3 ./check selftest > work/selftest.log 2>&1 || { echo "selftest failed"; tail -5 work/selftest.log; exit 1; }
 echo setup ok
